@@ -164,7 +164,7 @@ outer:
 				pi.Seek(last)
 				// Take the code so far.
 				if code.Len() > 0 {
-					expr := NewExpression(strings.TrimSpace(code.String()), from, pi.Position())
+					expr := NewExpression(strings.TrimRightFunc(code.String(), unicode.IsSpace), from, pi.Position())
 					tf.Nodes = append(tf.Nodes, TemplateFileGoExpression{Expression: expr})
 				}
 				// Carry on parsing.
@@ -180,7 +180,7 @@ outer:
 			code.WriteString(newLine)
 			if _, isEOF, _ := parse.EOF[string]().Parse(pi); isEOF {
 				if code.Len() > 0 {
-					expr := NewExpression(strings.TrimSpace(code.String()), from, pi.Position())
+					expr := NewExpression(strings.TrimRightFunc(code.String(), unicode.IsSpace), from, pi.Position())
 					tf.Nodes = append(tf.Nodes, TemplateFileGoExpression{Expression: expr})
 				}
 				// Stop parsing.
